@@ -54,6 +54,8 @@ pub struct Params {
     pub saturate_idioms: bool,
     pub chain_idioms: bool,
     pub survivors_idioms: bool,
+    pub unwrap_idioms: bool,
+    pub weak_idioms: bool,
     pub exact_threshold_prologue: u32, // percent of runs that start by driving allocated bytes exactly onto the threshold
 }
 
@@ -117,6 +119,8 @@ pub fn params(profile: &str) -> Params {
         saturate_idioms: false,
         chain_idioms: false,
         survivors_idioms: false,
+        unwrap_idioms: false,
+        weak_idioms: false,
         exact_threshold_prologue: 0,
     };
     let all_faults = vec![
@@ -153,6 +157,7 @@ pub fn params(profile: &str) -> Params {
         }
         "weak" => {
             set(&mut p.w, &[(O::Downgrade, 12), (O::WeakClone, 5), (O::WeakDrop, 7), (O::Upgrade, 10), (O::UpgradeDrop, 6), (O::StoreWeak, 8), (O::NewCyclic, 5), (O::WeakNew, 2), (O::TryUnwrap, 4)]);
+            p.weak_idioms = true;
             p.fin_rate = 40;
             p.drop_rate = 45;
             p.fin_minis = vec![(M::WeakToRoot, 6), (M::WeakToDrop, 4), (M::SelfWeakToRoot, 4), (M::Read, 2), (M::DropRoot, 2), (M::ClearSlot, 2), (M::DowngradeRoot, 2), (M::ChildToRoot, 3), (M::WeakToSlot, 2), (M::SelfWeakToSlot, 2)];
@@ -184,6 +189,7 @@ pub fn params(profile: &str) -> Params {
         "unwrap" => {
             set(&mut p.w, &[(O::TryUnwrap, 16), (O::DropUnwrapped, 6), (O::NewLeaf, 8), (O::Downgrade, 6), (O::NewCyclic, 4), (O::Upgrade, 4), (O::FinAgain, 2)]);
             p.leaf_rate = 35;
+            p.unwrap_idioms = true;
         }
         "cyclic" => {
             set(&mut p.w, &[(O::NewCyclic, 16), (O::NewCyclicLeaf, 5), (O::Upgrade, 8), (O::UpgradeDrop, 4), (O::WeakDrop, 4), (O::CfgBuffered, 3), (O::CfgAuto, 2)]);
@@ -530,6 +536,143 @@ impl<'a> Gen<'a> {
             }
             return;
         }
+        if self.p.unwrap_idioms && self.r.chance(2, 5) && self.sh.objects + 3 <= self.p.max_objects {
+            // try_unwrap of an object with history: buffered by an earlier clone, weakly referenced, made by new_cyclic,
+            // member of a two-object chain; first refused because a second pointer exists, then granted, then the weak
+            // pointers are tried and the value is destroyed
+            let kind = self.r.below(4);
+            match kind {
+                0 => {
+                    let ly = self.r.below(N_LAYOUTS as u64) as i64;
+                    self.push(Op::new(O::NewLeaf, &[ly]));
+                }
+                1 if HAS_WEAK => {
+                    let t = self.tmpl();
+                    let s = if self.r.chance(1, 2) { vec![Mini::new(MiniCode::SaveWeak, &[])] } else { vec![] };
+                    self.push(Op::new(O::NewCyclic, &[]).with_tmpl(t).with_script(s));
+                }
+                _ => {
+                    let t = self.tmpl();
+                    self.push(Op::new(O::New, &[]).with_tmpl(t));
+                }
+            }
+            let mut next = base + 1;
+            if kind >= 1 && self.r.chance(1, 3) {
+                // the value owns another object: moving it out must not disturb the child
+                let t = self.tmpl();
+                self.push(Op::new(O::New, &[]).with_tmpl(t));
+                self.push(Op::new(O::SetSlot, &[base, 0, next]));
+                if self.r.chance(1, 2) {
+                    self.push(Op::new(O::Drop, &[next]));
+                }
+                next += 1;
+            }
+            if self.r.chance(2, 3) {
+                self.push(Op::new(O::Clone, &[base]));
+                self.push(Op::new(O::Drop, &[next]));
+                next += 1;
+            }
+            let w0 = self.sh.weaks as i64;
+            let mut nw = 0;
+            if HAS_WEAK {
+                for _ in 0..self.r.below(3) {
+                    self.push(Op::new(O::Downgrade, &[base]));
+                    nw += 1;
+                }
+            }
+            if self.r.chance(1, 4) {
+                self.push(Op::new(O::Collect, &[]));
+            }
+            if self.r.chance(1, 2) {
+                // refused: a second pointer exists
+                self.push(Op::new(O::Clone, &[base]));
+                self.push(Op::new(O::TryUnwrap, &[base]));
+                if nw > 0 {
+                    self.push(Op::new(O::UpgradeDrop, &[w0]));
+                }
+                self.push(Op::new(O::Drop, &[next]));
+            }
+            self.push(Op::new(O::TryUnwrap, &[base]));
+            for i in 0..nw {
+                let code = if self.r.chance(1, 2) { O::Upgrade } else { O::UpgradeDrop };
+                self.push(Op::new(code, &[w0 + i]));
+            }
+            if self.r.chance(1, 2) {
+                self.push(Op::new(O::Collect, &[]));
+            }
+            if self.r.chance(3, 4) {
+                let b = (self.sh.bag as i64 - 1).max(0);
+                self.push(Op::new(O::DropUnwrapped, &[b]));
+            }
+            if self.r.chance(1, 3) {
+                self.push(Op::new(O::Collect, &[]));
+            }
+            return;
+        }
+        if self.p.weak_idioms && HAS_WEAK && self.r.chance(2, 5) && self.sh.objects + 4 <= self.p.max_objects {
+            // a group whose members hold weak pointers to every member (themselves included) and upgrade them from their
+            // finalizers and destructors; the same weak pointers are upgraded at top level at every stage of the group's
+            // life: held, unreferenced but not yet collected (cyclic) or kept by an upgraded pointer (acyclic), reclaimed
+            let k = 1 + self.r.below(3) as i64;
+            let cyclic = k > 1 || self.r.chance(1, 2);
+            for _ in 0..k {
+                let mut t = self.tmpl();
+                let mut fin = vec![];
+                for _ in 0..self.r.below(3) {
+                    let j = self.r.below(k as u64 + 1) as i64;
+                    fin.push(match self.r.below(5) {
+                        0 => Mini::new(MiniCode::WeakToRoot, &[j]),
+                        1 => Mini::new(MiniCode::WeakToSlot, &[j, 1 + self.r.below(3) as i64]),
+                        2 => Mini::new(MiniCode::SelfWeakToRoot, &[]),
+                        _ => Mini::new(MiniCode::WeakToDrop, &[j]),
+                    });
+                }
+                if HAS_FIN && !fin.is_empty() {
+                    t.fin = fin;
+                }
+                if self.r.chance(2, 3) {
+                    let j = self.r.below(k as u64 + 1) as i64;
+                    t.drop = vec![Mini::new(MiniCode::WeakToRoot, &[j])];
+                    if self.r.chance(1, 3) {
+                        t.drop.push(Mini::new(MiniCode::SelfWeakToRoot, &[]));
+                    }
+                }
+                self.push(Op::new(O::New, &[]).with_tmpl(t));
+            }
+            let w0 = self.sh.weaks as i64;
+            for i in 0..k {
+                self.push(Op::new(O::Downgrade, &[base + i]));
+            }
+            for i in 0..k {
+                for j in 0..k {
+                    self.push(Op::new(O::StoreWeak, &[base + i, w0 + j]));
+                }
+            }
+            if cyclic {
+                for i in 0..k {
+                    self.push(Op::new(O::SetSlot, &[base + i, 0, base + (i + 1) % k]));
+                }
+            }
+            self.push(Op::new(O::Upgrade, &[w0]));
+            let up = base + k;
+            for i in 0..k {
+                self.push(Op::new(O::Drop, &[base + i]));
+            }
+            self.push(Op::new(O::UpgradeDrop, &[w0 + k - 1]));
+            self.push(Op::new(O::Drop, &[up]));
+            let wi = w0 + self.r.below(k as u64) as i64;
+            self.push(Op::new(O::UpgradeDrop, &[wi]));
+            self.push(Op::new(O::Collect, &[]));
+            for i in 0..k {
+                let code = if self.r.chance(1, 3) { O::Upgrade } else { O::UpgradeDrop };
+                self.push(Op::new(code, &[w0 + i]));
+            }
+            if self.r.chance(1, 2) {
+                self.push(Op::new(O::Collect, &[]));
+                self.push(Op::new(O::UpgradeDrop, &[w0]));
+            }
+            return;
+        }
         if self.p.forward_idioms && self.r.chance(1, 2) {
             // two distinct allocations of the same payload type (zero-sized and over-aligned ones included), a clone, and
             // every pairing compared: ptr_eq must tell allocations apart, not values or addresses of zero-sized values
@@ -540,10 +683,24 @@ impl<'a> Gen<'a> {
             for (x, y) in [(base, base + 1), (base, base + 2), (base + 1, base + 1), (base + 2, base + 1)] {
                 self.push(Op::new(O::Compare, &[x, y]));
             }
+            if self.r.chance(1, 2) {
+                // the same questions after the allocation got a weak side record, sat in the buffer and survived a collection
+                if HAS_WEAK {
+                    self.push(Op::new(O::Downgrade, &[base]));
+                }
+                self.push(Op::new(O::Clone, &[base + 1]));
+                self.push(Op::new(O::Drop, &[base + 3]));
+                self.push(Op::new(O::Drop, &[base + 2]));
+                self.push(Op::new(O::Collect, &[]));
+                self.push(Op::new(O::Compare, &[base, base + 1]));
+                self.push(Op::new(O::Clone, &[base]));
+                self.push(Op::new(O::Compare, &[base, base + 4]));
+            }
             return;
         }
         let kinds = if self.p.cleaner_idioms { 11 } else { 9 };
-        match self.r.below(kinds) {
+        let pick = if self.p.cleaner_idioms && self.r.chance(1, 3) { 9 } else { self.r.below(kinds) };
+        match pick {
             0 => {
                 // self loop, dropped
                 let t = self.tmpl();
